@@ -100,6 +100,7 @@ type Stats struct {
 	CacheHits   int64
 	Stubs       map[string]int64
 	MaxPathStep int64
+	UFRefinements int64
 }
 
 func newStats() *Stats {
@@ -148,6 +149,7 @@ func (s *Stats) merge(o *Stats) {
 	if o.MaxPathStep > s.MaxPathStep {
 		s.MaxPathStep = o.MaxPathStep
 	}
+	s.UFRefinements += o.UFRefinements
 }
 
 // Exec is one worker: an interpreter plus its own solver process.
@@ -194,6 +196,8 @@ type Exec struct {
 	ctxChildren map[*ctxObj][]*ctxObj
 	panicsLogged []string
 	reqCtx      map[*value]value
+	ufApps      []ufApp
+	pendingFacts []string
 }
 
 type recordedCall struct {
@@ -504,7 +508,7 @@ func (e *Exec) vAssert(c Bool, id string) {
 		for _, k := range listed {
 			e.sol.Send("(assert " + bnot(k.cond).term().S + ")")
 		}
-		r := e.sol.Check()
+		r := e.checkRefined()
 		if r == "sat" {
 			e.recordViolation(id, "", "")
 		} else if r == "unknown" {
@@ -518,7 +522,7 @@ func (e *Exec) vAssert(c Bool, id string) {
 				}
 				e.sol.Send("(push 1)")
 				e.sol.Send("(assert " + k.cond.term().S + ")")
-				if e.sol.Check() == "sat" {
+				if e.checkRefined() == "sat" {
 					v := e.mkViolation(id, "")
 					v.Known = k.id
 					e.st.KnownHit[k.id] = &v
@@ -527,7 +531,7 @@ func (e *Exec) vAssert(c Bool, id string) {
 			}
 		}
 	} else {
-		r := e.sol.Check()
+		r := e.checkRefined()
 		if r == "sat" {
 			e.recordViolation(id, "", "")
 		} else if r == "unknown" {
@@ -576,7 +580,7 @@ func (e *Exec) violationHere(id, msg string) {
 		for _, k := range listed {
 			e.sol.Send("(assert " + bnot(k.cond).term().S + ")")
 		}
-		r := e.sol.Check()
+		r := e.checkRefined()
 		if r == "sat" {
 			e.recordViolation(id, msg, "")
 			e.sol.Send("(pop 1)")
@@ -593,7 +597,7 @@ func (e *Exec) violationHere(id, msg string) {
 			}
 			e.sol.Send("(push 1)")
 			e.sol.Send("(assert " + k.cond.term().S + ")")
-			if e.sol.Check() == "sat" {
+			if e.checkRefined() == "sat" {
 				v := e.mkViolation(id, msg)
 				v.Known = k.id
 				e.st.KnownHit[k.id] = &v
@@ -602,7 +606,7 @@ func (e *Exec) violationHere(id, msg string) {
 		}
 		return
 	}
-	if e.sol.Check() == "sat" {
+	if e.checkRefined() == "sat" {
 		e.recordViolation(id, msg, "")
 	} else {
 		e.incon("path condition not sat at violation " + id)
@@ -675,6 +679,7 @@ func (e *Exec) runPath(prefix []int64) {
 	e.faultSeq = 0
 	e.panicsLogged = nil
 	e.reqCtx = map[*value]value{}
+	e.ufApps, e.pendingFacts = nil, nil
 	e.initSched()
 	e.sol.Send("(push 1)")
 	defer func() {
